@@ -12,8 +12,8 @@ Mirrored from `cisco/diff.go`: `diffTunnelGroupMap` / `diffWebVPN` = `diffCmds` 
 line of the referenced certificate map, `default-group` for the default rule): `diffUnordered` by that key, "no parts equal" ⇒
 `markDeleted` (toplevel rules; printed by `deleteUnused`) resp. `delCmds` (sub-commands of webvpn) + `addCmds`, otherwise deletes
 first (`no …` at once, then `markDeleted` of what the rule referenced), `makeEqual` for rules with equal key (the target's rule
-takes the DEVICE's index; both referenced objects are compared by `diffCmds`; a changed name ⇒ the rule is sent again — WITHOUT a
-`no` for the old one), `addCmds` for new rules (`follow`: an object with a fixed name that exists on the device is compared instead
+takes the DEVICE's index; both referenced objects are compared by `diffCmds`; a changed name ⇒ the rule is sent again, after a
+`no` for the old one if the certificate map is another one — since /repo fix of F-VPN-repoint), `addCmds` for new rules (`follow`: an object with a fixed name that exists on the device is compared instead
 of transferred), `addCmd` (toplevel rule: leaves every mode; `webvpn`: `exit` first if the open mode is a group-policy's or a
 username's — that mode has a sub-mode of the same name), `setCmdConfMode("webvpn")`, and the part of `deleteUnused` that prints the
 marked toplevel rules in the first round between the tunnel-groups and the usernames.
@@ -129,6 +129,12 @@ def addRules (h : HSt) (web : Bool) (l : List Rule) : Option HSt :=
         h.emitH (.cgm false (h.printRule r r.seq))
       else ({ h with mode := none } : HSt).emitH (.tgmap false (h.printRule r r.seq))) (some h)
 
+/-- the certificate map the target's rule is printed with is not the one of the device's rule -/
+def cmChanged (h : HSt) (ra rb : Rule) : Bool :=
+  match ra.cm, rb.cm with
+  | some na, some nb => h.cur (Kind.certmap, nb) != na
+  | _, _ => false
+
 /-- `makeEqual` for two rules with the same key -/
 def equalRule (h : HSt) (web : Bool) (ia : Nat) (ra rb : Rule) : Option HSt :=
   let h := if web then h else { h with tNeeded := ia :: h.tNeeded }
@@ -136,10 +142,16 @@ def equalRule (h : HSt) (web : Bool) (ia : Nat) (ra rb : Rule) : Option HSt :=
     acc.bind fun q => (diffAny fuel q.1.toSt p.1 p.2).map fun d => (q.1.withSt d.1, q.2 || d.2 != p.1.2)) (some (h, false))
   r?.map fun q =>
     if q.2 then
+      -- a rule is identified by certificate map and index: with another map the old rule would stay, so it is removed first
+      let cmCh : Bool := cmChanged q.1 ra rb
       if web then
         let h := q.1.setWeb
+        let h := if cmCh then h.emitH (.cgm true ra) else h
         h.emitH (.cgm false (h.printRule rb ra.seq))
-      else ({ q.1 with mode := none } : HSt).emitH (.tgmap false (q.1.printRule rb ra.seq))
+      else
+        let h : HSt := { q.1 with mode := none }
+        let h := if cmCh then h.emitH (.tgmap true ra) else h
+        h.emitH (.tgmap false (h.printRule rb ra.seq))
     else q.1
 
 def withIdx {α : Type} (l : List α) : List (Nat × α) := (List.range l.length).zip l
